@@ -611,7 +611,8 @@ func (e *Env) call(x *ECall) SVal {
 			e.fail("base of non-slice")
 		}
 		return iv(v.T)
-	case "same", "filled", "dseg":
+	case "same", "filled", "dseg", "mseg":
+		// mseg(a, i, z, v, j, n):  a[i+t] is character j+t of the digit string "z zeros, then the decimal text of v", 0 <= t < n
 		// dseg(a, i, v, j, n):  a[i+t] == uf_dchar(v, j+t) for 0 <= t < n - the bytes are characters j.. of the decimal text of v
 		// same(a, i, b, j, n):  a[i+t] == b[j+t] for 0 <= t < n      filled(a, i, n, c):  a[i+t] == c for 0 <= t < n
 		// a and b are slices of scalars; either may be written old(s): its cells are then read in the old state.
@@ -619,8 +620,14 @@ func (e *Env) call(x *ECall) SVal {
 		// a fact about a segment fires on every read of that array, and a goal about a segment skolemises to one read.
 		if x.Fn == "filled" {
 			need(4)
+		} else if x.Fn == "mseg" {
+			need(6)
 		} else {
 			need(5)
+		}
+		mchar := func(z, v, k Term) Term {
+			e.g.dcharAxiom()
+			return Ite(Lt(k, z), IntLit(48), app(SInt, "uf_dchar_2", v, Sub(k, z)))
 		}
 		sliceIn := func(a Expr) (SVal, *State) {
 			st := e.cur
@@ -669,6 +676,10 @@ func (e *Env) call(x *ECall) SVal {
 					barr := e.g.arr(bst, cellKey(bv2.Ty.Elem), SInt)
 					rhs = func(t Term) Term { return Select(barr, Add(bv2.T, Add(j, Sub(t, i))), SInt) }
 				}
+			case "mseg":
+				z, v, j := e.integer(args[2]), e.integer(args[3]), e.integer(args[4])
+				n = e.integer(args[5])
+				rhs = func(t Term) Term { return mchar(z, v, Add(j, Sub(t, i))) }
 			case "dseg":
 				v, j := e.integer(args[2]), e.integer(args[3])
 				n = e.integer(args[4])
@@ -704,6 +715,10 @@ func (e *Env) call(x *ECall) SVal {
 			} else {
 				rhs = Select(e.g.arr(bst, key, es), Add(bv2.T, Add(j, Sub(q, lo))), es)
 			}
+		} else if x.Fn == "mseg" {
+			z, v, j := e.integer(args[2]), e.integer(args[3]), e.integer(args[4])
+			n = e.integer(args[5])
+			rhs = mchar(z, v, Add(j, Sub(q, lo)))
 		} else if x.Fn == "dseg" {
 			v, j := e.integer(args[2]), e.integer(args[3])
 			n = e.integer(args[4])
@@ -848,7 +863,7 @@ func (e *Env) call(x *ECall) SVal {
 		}
 		fname := fmt.Sprintf("%s_%d", x.Fn, len(args))
 		switch x.Fn {
-		case "uf_isnum", "uf_numval", "uf_utext", "uf_stext":
+		case "uf_isnum", "uf_numval", "uf_utext", "uf_stext", "uf_ntext":
 			e.g.numeralTheory()
 		case "uf_dchar":
 			e.g.dcharAxiom()
